@@ -384,6 +384,31 @@ theorem collection_later_ind_var_counted (ops : List (String × Def)) (n m s : S
     exact collection_registers_ind _ n m s h
   exact (collection_ind_chain _ n hz).2.2.2.1
 
+/-- **End to end** (collection → ranking of the names → graph construction): in the graph built from ANY reachable
+    collection, every registered individual latent variable has the summary node `nll_regul_ind_sum` among its reported
+    dependents, is among the reported dependencies of that node, and comes before it in the graph order. -/
+theorem collection_graph_ind_feeds_sum (ops : List (String × Def)) (z : String) (hz : z ∈ (collOf ops).indVars)
+    {r : Dag.Result} (hb : Dag.build (graphOf (definitions (collOf ops))) = .ok r) :
+    let rk := fun x => (rankedNames (definitions (collOf ops))).idxOf x
+    rk "nll_regul_ind_sum" ∈ r.children (rk z) ∧ rk z ∈ r.ancestors (rk "nll_regul_ind_sum") ∧
+    r.order.idxOf (rk z) < r.order.idxOf (rk "nll_regul_ind_sum") := by
+  intro rk
+  have hnd : ((definitions (collOf ops)).map (·.1)).Nodup := by
+    rw [definitions_keys]; exact collection_keys_unique ops
+  obtain ⟨_, ⟨m, s, h1⟩, _, ⟨deps, h2, h3⟩, h4⟩ := collection_ind_chain ops z hz
+  have e1 := graphOf_edge hnd h1 (a := z) (by simp)
+  have e2 := graphOf_edge hnd h2 h3
+  have e3 := graphOf_edge hnd h4 (a := "nll_regul_ind_sum_ind") (by simp)
+  have hr : Reach (graphOf (definitions (collOf ops))) (rk z) (rk "nll_regul_ind_sum") :=
+    .tail (.tail (.single e1) e2) e3
+  exact ⟨(children_exact hb _ _).2 hr, (ancestors_exact hb _ _).2 hr, (order_topological hb hr).2.2⟩
+
+/-- … and the hypothesis is met: the example collection below is accepted by the graph construction. -/
+example : (match fromDict (collOf [("tau", .ind "tau_mean" "tau_std"), ("tau_mean", .plain), ("tau_std", .plain)]) with
+    | .ok order => order == ["tau", "tau_mean", "tau_std", "nll_regul_tau_ind", "nll_regul_ind_sum_ind", "nll_regul_tau",
+        "nll_regul_ind_sum"]
+    | _ => false) = true := by decide +kernel
+
 /-! Non-vacuity: `tau` before the parameters of its prior, a refused name in between, a second individual variable later. -/
 private def exOps : List (String × Def) :=
   [("tau", .ind "tau_mean" "tau_std"), ("tau_mean", .plain), ("state", .plain), ("tau_std", .plain),
